@@ -21,6 +21,7 @@ B64Ok(o) ==
   /\ pad = (IF o.padded THEN 4 * Ceil(n, 3) - Len(body) ELSE 0)
   /\ o.decok /\ o.dec = o.s                                         \* decoding the encoding gives the string back
   /\ ~o.badok                                                       \* a character outside the alphabet is refused
+  /\ ~o.ncok                                                        \* so is a text no encoder produces (left-over bits set in the last symbol)
 \* ---- percent encoding: only unreserved characters (and `/` unless strict) and %XX; decoding gives the UTF-8 bytes back
 Unreserved == AlNum \cup {45, 46, 95, 126}                         \* - . _ ~
 Hex(c) == IF c \in Digit THEN c - 48 ELSE IF c \in 65..70 THEN c - 55 ELSE IF c \in 97..102 THEN c - 87 ELSE -1
